@@ -98,6 +98,21 @@ pub fn build(rng: &mut StdRng, l: &Value) -> Built {
     b
 }
 
+/// A fault-free reply for one of `cands` that a server can send within the datagram sizes of D17: candidates are drawn until
+/// one fits (callers that do not care which shape they get).
+pub fn build_fitting(rng: &mut StdRng, cands: &[&Value]) -> Built {
+    let mut last = None;
+    for _ in 0 .. 60 {
+        let l = cands[rng.gen_range(0 .. cands.len())];
+        let b = build(rng, l);
+        if b.fits {
+            return b;
+        }
+        last = Some(b);
+    }
+    last.unwrap()
+}
+
 fn build_raw(rng: &mut StdRng, l: &Value) -> Built {
     let lay = &l["layout"];
     let entry = lay["entry"].as_str().unwrap();
